@@ -678,7 +678,7 @@ class Exec:
             t = parts[0]
             for p in parts[1:]:
                 t = '%s%s%s' % (t, sym, p)
-            return '(%s)' % t if len(parts) > 2 or not P else t
+            return '(%s)' % t        # always parenthesised: a nested mixed and/or must keep its grouping
         if isinstance(node, ast.UnaryOp) and isinstance(node.op, ast.Not):
             inner = node.operand
             if not isinstance(inner, (ast.BoolOp, ast.Compare, ast.UnaryOp)):
